@@ -157,9 +157,10 @@ var Exponent = numericalBinary(func(env envs.Environment, num1 *types.XNumber, n
 		return types.NewXErrorf("number value out of range")
 	}
 
-	// a negative power is the reciprocal of the positive power, which has the digits of the base that many times over
-	// only to be cut back to 16 decimal places, e.g. 2 ^ -999999999
-	if power.IsNegative() && exponentOutOfRange(new(big.Int).Mul(big.NewInt(int64(base.NumDigits())), power.BigInt())) {
+	// a power has the digits of the base that many times over and is calculated in full by repeated squaring, whether
+	// it is the result, e.g. 2 ^ 99999999999, or is then inverted and cut back to 16 decimal places, e.g. 2 ^ -999999999
+	// (only the powers of 0, 1 and 0.1, 0.01 etc don't grow)
+	if base.Coefficient().CmpAbs(big.NewInt(1)) > 0 && exponentOutOfRange(new(big.Int).Mul(big.NewInt(int64(base.NumDigits())), power.BigInt())) {
 		return types.NewXErrorf("number value out of range")
 	}
 
